@@ -166,7 +166,7 @@ class XYZ(Spec):
         ("elements", ["OHH", "all-Z", "two-letter"]),
         ("coords", ["small", "negative", "wide", "tiny"]),
         _title_axis(),
-        ("atom_columns", ["default", "+charges", "+gradient", "+charges+gradient", "atnums-as-numbers"]),
+        ("atom_columns", ["default", "+charges", "+gradient", "+charges+gradient", "atnums-as-numbers", "+two-charges+extra"]),
     ]
 
     def columns(self, kind):
@@ -180,6 +180,10 @@ class XYZ(Spec):
             return cols
         if "charges" in kind:
             cols.append(("atcharges", "mulliken", (), float, (lambda w: float(w)), (lambda v: f"{v:12.6f}")))
+        if kind == "+two-charges+extra":  # several columns taken from the same dictionary attribute under different keys
+            cols.append(("atcharges", "esp", (), float, (lambda w: float(w)), (lambda v: f"{v:12.6f}")))
+            cols.append(("extra", "tags", (), int, (lambda w: int(w)), (lambda v: f"{int(v):5d}")))
+            cols.append(("extra", "weights", (2,), float, (lambda w: float(w)), (lambda v: f"{v:10.4f}")))
         if "gradient" in kind:
             cols.append(("atgradient", None, (3,), float, (lambda w: -float(w)), (lambda v: f"{-v:15.10f}")))
         return cols
@@ -198,6 +202,9 @@ class XYZ(Spec):
             kw["atcharges"] = {"mulliken": np.round(np.linspace(-0.9, 0.8, n) + 0.001 * np.arange(n) % 0.01, 6)}
         if "gradient" in case["atom_columns"]:
             kw["atgradient"] = np.round(np.arange(3.0 * n).reshape(n, 3) * 0.0123 - 1.5, 8)
+        if case["atom_columns"] == "+two-charges+extra":
+            kw["atcharges"]["esp"] = np.round(np.linspace(0.7, -0.6, n) - 0.002 * (np.arange(n) % 7), 6)
+            kw["extra"] = {"tags": (np.arange(n) * 3 + 1) % 97, "weights": np.round(np.arange(2.0 * n).reshape(n, 2) * 0.25 + 0.125, 4)}
         k = {} if cols is None else {"atom_columns": cols}
         return IOData(**kw), k, dict(k)
 
@@ -210,6 +217,10 @@ class XYZ(Spec):
             d.close("atcharges[mulliken]", o.atcharges["mulliken"], b.atcharges.get("mulliken"), abs_tol=0.6e-6)
         if "gradient" in case["atom_columns"]:
             d.close("atgradient", o.atgradient, b.atgradient, abs_tol=0.6e-10)
+        if case["atom_columns"] == "+two-charges+extra":
+            d.close("atcharges[esp]", o.atcharges["esp"], b.atcharges.get("esp"), abs_tol=0.6e-6)
+            d.exact("extra[tags]", o.extra["tags"], b.extra.get("tags"))
+            d.close("extra[weights]", o.extra["weights"], b.extra.get("weights"), abs_tol=0.6e-4)
 
 
 class SDF(Spec):
@@ -312,7 +323,7 @@ class PDB(Spec):
         ("coords", ["small", "negative", "wide", "tiny"]),
         _title_axis(),
         ("bonds", ["last-atoms", "none", "one", "few", "ten", "hub", "chain"]),
-        ("atffparams", ["none", "attypes", "restypes+resnums", "all"]),
+        ("atffparams", ["none", "attypes", "restypes+resnums", "all", "wide-resnums"]),
         ("extra", ["none", "occupancies+bfactors", "chainids", "compound", "compound-multiline", "compound-14-lines", "all"]),
     ]
 
@@ -334,6 +345,8 @@ class PDB(Spec):
             pool = ["ALA", "GLY", "HOH", "TYR"]
             ff["restypes"] = np.array([pool[(i // 3 + seed) % len(pool)] for i in range(n)])
             ff["resnums"] = np.array([1 + (i // 3) % 9998 for i in range(n)])
+        if case["atffparams"] == "wide-resnums":  # residue numbers that fill the four columns (>= 1000, <= -100)
+            ff["resnums"] = np.array([[1000, -100, 9999, 999, 1001, -1, -99, -999, 998][i % 9] for i in range(n)])
         if ff:
             kw["atffparams"] = ff
         ex = {}
